@@ -67,3 +67,22 @@ package consensus
 //@     a != nil && b != nil && c != nil &&
 //@     fullCmp(p, a, b, f, t) >= 0 && fullCmp(p, b, c, f, t) >= 0 ==> fullCmp(p, a, c, f, t) >= 0
 //@   props C41
+
+// C40: the operational certificate's KES window. cur = slot / slotsPerKESPeriod; a header is inside
+// the window iff cert <= cur < cert + maxEvolutions (128-bit arithmetic: no wrap-around).
+//@ func (v *HeaderValidator) validateKESPeriod(input) (err)
+//@   props C40
+//@   requires nonnil: v != nil && input != nil
+//@   let cert = uint64(input.OpCertKesPeriod)
+//@   ensures zero: v.slotsPerKESPeriod == 0 ==> err != nil
+//@   ensures window: v.slotsPerKESPeriod != 0 ==> (err == nil <==> u128(cert) <= u128(input.Slot / v.slotsPerKESPeriod) && u128(input.Slot / v.slotsPerKESPeriod) < u128(cert) + u128(v.maxKESEvolutions))
+
+// The KES signature is checked over the stored header body bytes at evolution cur - cert exactly.
+//@ func (v *HeaderValidator) validateKESSignature(input) (err)
+//@   props C40
+//@   requires nonnil: v != nil && input != nil
+//@   let cert = uint64(input.OpCertKesPeriod)
+//@   ensures zero: v.slotsPerKESPeriod == 0 ==> err != nil
+//@   ensures sig: err == nil ==> v.slotsPerKESPeriod != 0 && cert <= input.Slot / v.slotsPerKESPeriod &&
+//@       kes.VerifySignedKES(input.OpCertHotVkey, input.Slot / v.slotsPerKESPeriod - cert, input.HeaderBodyCbor, input.KesSignature) &&
+//@       len(input.HeaderBodyCbor) != 0
